@@ -107,7 +107,7 @@ func c08() {
 	if r.Counter("clean_transitions_verified_done") == 0 {
 		r.Inconclusive("no non-interfered transition was verified (sanity)")
 	}
-	r.Finish("random disk trees scanned by the real core.Scan; plans of 1..6 disjoint transitions built from the snapshot (remove file/link/directory, swap file content or executability with staged content from a harness Provider on the same or another device, kind changes, creations); 0..3 interferences between scan and transition (in-place edit with unique token and mtime bump, same-size edit, chmod, replacement by a new inode of identical size/mtime/mode, link retarget, new child (also with a .mutagen-temporary- name) in a directory scheduled for removal, chmod back to the mode an earlier scan saw (scan1; chmod; scan2 re-using scan1's cache; plan from scan2; chmod back), file replaced by directory, object appearing at a planned creation path) plus pre-existing unsynchronizable or unlisted (temporary-named) content; real core.Transition as root and as uid 65534 (there with read-only directories); afterwards each interfered object is re-observed (lstat, sha1, readlink, recursive listing) and the problems are searched for its path; transitions without interference must report and reach their target (root runs); plus the same cycle through a real local endpoint with poll-based watching at a 1 s interval, accelerated scanning on and off (Scan, plan from the returned snapshot, Stage with rsync transfer, interference, the watcher's poll signal plus two further polling intervals, Transition); distinct = (uid, transition kind, interference kind, depth below the transition root, staging device)", 40)
+	r.Finish("random disk trees scanned by the real core.Scan; plans of 1..6 disjoint transitions built from the snapshot (remove file/link/directory, swap file content or executability with staged content from a harness Provider on the same or another device, kind changes, creations); 0..3 interferences between scan and transition (in-place edit with unique token and mtime bump, same-size edit, same-size edit whose mtime differs only in the nanoseconds, chmod, replacement by a new inode of identical size/mtime/mode, link retarget (also of links with 129..247-byte targets to a target sharing the first 128 bytes), new child (also with a .mutagen-temporary- name) in a directory scheduled for removal, chmod back to the mode an earlier scan saw (scan1; chmod; scan2 re-using scan1's cache; plan from scan2; chmod back), file replaced by directory, object appearing at a planned creation path) plus pre-existing unsynchronizable or unlisted (temporary-named) content; real core.Transition as root and as uid 65534 (there with read-only directories); afterwards each interfered object is re-observed (lstat, sha1, readlink, recursive listing) and the problems are searched for its path; transitions without interference must report and reach their target (root runs); plus the same cycle through a real local endpoint with poll-based watching at a 1 s interval, accelerated scanning on and off (Scan, plan from the returned snapshot, Stage with rsync transfer, interference, the watcher's poll signal plus two further polling intervals, Transition); distinct = (uid, transition kind, interference kind, depth below the transition root, staging device)", 40)
 }
 
 func c08Cases(out rec, run *vk.Run, dir, shm string, unpriv bool) {
@@ -166,6 +166,31 @@ func c08One(out rec, rng *rand.Rand, index int, base, sbase string, unpriv bool)
 		return
 	}
 	c.Tree = describeTree(tree)
+	// links whose targets are longer than the 128-byte initial readlink buffer
+	// (and valid in portable mode: at most 247 bytes, staying inside the root)
+	var longLinks []string
+	if rng.Intn(2) == 0 {
+		ldirs := []string{""}
+		for p, nd := range tree {
+			if nd.Kind == fsx.KDir && utf8.ValidString(p) {
+				ldirs = append(ldirs, p)
+			}
+		}
+		sort.Strings(ldirs)
+		for k := 1 + rng.Intn(3); k > 0; k-- {
+			d := ldirs[rng.Intn(len(ldirs))]
+			L := 129 + rng.Intn(119)
+			target := strings.Repeat("n/", (L-1)/2) + "n"
+			for len(target) < L {
+				target += "n"
+			}
+			p := join(d, fmt.Sprintf("longlink%d", k))
+			if os.Symlink(target, fullPath(root, p)) == nil {
+				longLinks = append(longLinks, p)
+				c.Tree = append(c.Tree, fmt.Sprintf("%q link with %d-byte target", p, L))
+			}
+		}
+	}
 	scfg := fsx.ScanConfig{Patterns: c.Patterns, ProbeMode: probeModes[rng.Intn(2)], SymbolicLinkMode: sl, PermissionsMode: core.PermissionsMode_PermissionsModePortable}
 	st, err := fsx.Cold(root, scfg)
 	if err != nil || st.Snapshot.Content == nil || st.Snapshot.Content.Kind != core.EntryKind_Directory {
@@ -354,6 +379,14 @@ func c08One(out rec, rng *rand.Rand, index int, base, sbase string, unpriv bool)
 		}
 		plan = append(plan, t)
 	}
+	// long links that no planned transition covers get a removal of their own
+	for _, p := range longLinks {
+		e := entryAt(snap, p)
+		if e == nil || e.Kind != core.EntryKind_SymbolicLink || !disjoint(p) {
+			continue
+		}
+		plan = append(plan, &plannedTransition{Kind: "remove-link", Path: p, change: &core.Change{Path: p, Old: syncFilter(e)}})
+	}
 	// creations at fresh paths
 	for k := rng.Intn(3); k > 0 && len(dirs) > 0; k-- {
 		d := dirs[rng.Intn(len(dirs))]
@@ -408,6 +441,31 @@ func c08One(out rec, rng *rand.Rand, index int, base, sbase string, unpriv bool)
 					}
 				}
 			}
+		}
+	}
+	for _, p := range longLinks {
+		e := entryAt(snap, p)
+		if e == nil || e.Kind != core.EntryKind_SymbolicLink || used[p] || rng.Intn(4) == 0 {
+			continue
+		}
+		for _, t := range plan {
+			if t.change.Old == nil || !atOrBelow(p, t.Path) {
+				continue
+			}
+			full := fullPath(root, p)
+			cur, err := os.Readlink(full)
+			if err != nil || len(cur) <= 128 {
+				continue
+			}
+			// same first 128 bytes (and same length), different afterwards
+			retargeted := cur[:len(cur)-1] + "m"
+			t.touched = true
+			if os.Remove(full) != nil || os.Symlink(retargeted, full) != nil {
+				continue
+			}
+			used[p] = true
+			t.Interf = append(t.Interf, interference{Kind: "retarget-link-sharing-first-128-bytes", Path: p, After: observe(full)})
+			out.Count("interference:retarget-link-sharing-first-128-bytes|"+c.Symlinks, 1)
 		}
 	}
 	nInterf := rng.Intn(4)
@@ -800,7 +858,27 @@ func c08Interfere(rng *rand.Rand, root string, snap *core.Entry, t *plannedTrans
 		return nil
 	}
 	perm := os.FileMode(st.Mode & 0o777)
-	switch rng.Intn(5) {
+	switch rng.Intn(6) {
+	case 5: // in-place rewrite, same size and mode, mtime in the SAME second with other nanoseconds
+		if st.Size == 0 {
+			return nil
+		}
+		t.touched = true
+		os.Chmod(full, perm|0o200)
+		if os.WriteFile(full, exactBytes(rng, int(st.Size)), 0) != nil {
+			return nil
+		}
+		os.Chmod(full, perm)
+		nsec := (st.Mtim.Nsec + 1 + rng.Int63n(999_999_998)) % 1_000_000_000
+		ts := []unix.Timespec{{Sec: st.Atim.Sec, Nsec: st.Atim.Nsec}, {Sec: st.Mtim.Sec, Nsec: nsec}}
+		if nsec == st.Mtim.Nsec || unix.UtimesNanoAt(unix.AT_FDCWD, full, ts, unix.AT_SYMLINK_NOFOLLOW) != nil {
+			return nil
+		}
+		var nst syscall.Stat_t
+		if syscall.Lstat(full, &nst) != nil || nst.Mtim.Sec != st.Mtim.Sec || nst.Mtim.Nsec == st.Mtim.Nsec || nst.Size != st.Size || nst.Mode != st.Mode || nst.Ino != st.Ino {
+			return nil
+		}
+		return done("edit-same-second-other-nanoseconds", o.path, full)
 	case 0: // in-place edit, other size, mtime bumped
 		t.touched = true
 		os.Chmod(full, perm|0o200)
